@@ -26,6 +26,12 @@ def sig(fn, *a, **k):
 
 def run(c):
     op = c["op"]
+    if op == "sequence":
+        # calls in one interpreter, in order (state a version of the code keeps between calls matters)
+        obs = [run(x) for x in c["calls"]]
+        o = dict(obs[-1])
+        o["all"] = obs
+        return o
     if op == "change_status":
         st = conv(c["status_kind"], c["status"])
         ms = conv(c["status_kind"], c["msg_status"])
